@@ -921,6 +921,9 @@ fn cmd_patch_random(args: &[String]) {
         let r = [512usize, 2048, 8192][rng.gen_range(0..3)];
         let nb = rng.gen_range(1..8);
         let mut basis: Vec<u8> = (0..nb * r + rng.gen_range(0..r)).map(|_| rng.gen()).collect();
+        // every fourth case: the basis ends in a run of zero bytes and is then cut inside that run - what a scratch buffer
+        // happens to hold (zeros) must not stand in for basis bytes that are not there
+        let zero_from = if k % 4 == 0 { let z = rng.gen_range(1..=nb); let from = (nb - z) * r; for b in &mut basis[from..] { *b = 0; } Some(from) } else { None };
         let mut source = basis.clone();
         for _ in 0..rng.gen_range(0..3) {
             let at = rng.gen_range(0..source.len());
@@ -933,11 +936,11 @@ fn cmd_patch_random(args: &[String]) {
         let mut huge = false;
         let mut corrs: Vec<String> = vec![];
         for _ in 0..rng.gen_range(1..=3) {
-            let which = rng.gen_range(0..16);
+            let which = if zero_from.is_some() && corrs.is_empty() { 1 } else { rng.gen_range(0..16) };
             corrs.push(format!("c{which}"));
             match which {
                 0 => { basis = (0..basis.len()).map(|_| rng.gen()).collect(); }
-                1 => { let cut = rng.gen_range(0..=basis.len()); basis.truncate(cut); }
+                1 => { let lo = zero_from.filter(|_| corrs.len() == 1).unwrap_or(0).min(basis.len()); let cut = rng.gen_range(lo..=basis.len()); basis.truncate(cut); }
                 2 => { let extra = rng.gen_range(1..2000); basis.extend((0..extra).map(|_| rng.gen::<u8>())); }
                 3 => { if !basis.is_empty() { let i = rng.gen_range(0..basis.len()); basis[i] ^= 1 << rng.gen_range(0..8); } }
                 4 | 5 => {
